@@ -2,9 +2,10 @@
 (***************************************************************************)
 (* Report model (properties C11, C12, C13).                                 *)
 (*                                                                          *)
-(* Findings of one category: a function F from the patterns that have       *)
-(* findings to a non-empty sequence of <<file, lines>> (lines a non-empty,   *)
-(* ascending sequence).  The rendered category part is a sequence of items  *)
+(* Findings of one category: a function F from patterns to a sequence of    *)
+(* <<file, lines>> (lines an ascending sequence, possibly EMPTY: the map is  *)
+(* a public input of the renderers; an entry without lines is no finding,    *)
+(* and a pattern all of whose entries are empty has none).  The rendered category part is a sequence of items  *)
 (*   [t |-> "Overview", n]   [t |-> "Severity", s]   [t |-> "Section", p]    *)
 (*   [t |-> "LinesHdr"]      [t |-> "Entry", f, l]    [t |-> "Garbage"]       *)
 (* (the harness tokenises the real text into these; "Garbage" is text it     *)
@@ -52,9 +53,11 @@ ItemsOf(out, ty) == {i \in 1 .. Len(out) : out[i].t = ty}
 \* C11 ----------------------------------------------------------------------
 NoGarbage(out) == ItemsOf(out, "Garbage") = {}
 RoundTrip(F, out) == BagOfSeq(ReadBack(out)) = BagOfSeq(Flat(F))
+\* the patterns that have at least one finding
+Reported(F) == {p \in DOMAIN F : EntriesOf(F, p) # <<>>}
 SectionIff(F, out) ==
-    /\ {out[i].p : i \in ItemsOf(out, "Section")} = DOMAIN F
-    /\ Cardinality(ItemsOf(out, "Section")) = Cardinality(DOMAIN F)      \* each section once
+    /\ {out[i].p : i \in ItemsOf(out, "Section")} = Reported(F)
+    /\ Cardinality(ItemsOf(out, "Section")) = Cardinality(Reported(F))      \* each section once
 \* a section is followed by the "### Lines" header and at least one entry; entries only there
 WellFormed(out) ==
     \A i \in 1 .. Len(out) :
@@ -71,7 +74,7 @@ HeadingIff(F, out) ==
     \A k \in 1 .. Len(Severities) :
         LET s == Severities[k]
             H == {i \in ItemsOf(out, "Severity") : out[i].s = s}
-        IN IF \E p \in DOMAIN F : SeverityOf(p) = s THEN Cardinality(H) = 1 ELSE H = {}
+        IN IF \E p \in Reported(F) : SeverityOf(p) = s THEN Cardinality(H) = 1 ELSE H = {}
 \* the nearest severity heading above a section is the section's own severity
 RECURSIVE HeadingAbove(_, _)
 HeadingAbove(out, i) == IF i < 1 THEN "none"
